@@ -22,6 +22,7 @@ import (
 	"path/filepath"
 	"sort"
 	"strings"
+	"syscall"
 
 	"github.com/bmatcuk/doublestar/v4"
 )
@@ -370,7 +371,9 @@ func cleanCmd(args []string) error {
 func cleanSymlinkCases(spok, tmp string, r *rand.Rand, n int, st *cleanStats, bo *bufio.Writer) {
 	for k := 0; k < n; k++ {
 		home := filepath.Join(tmp, fmt.Sprintf("l%d", k))
-		proj := filepath.Join(home, "proj")
+		// the project directory may have a name that merely LOOKS like a parent reference
+		pn := []string{"proj", "proj", "..data", "...", "..2024_x"}[k%5]
+		proj := filepath.Join(home, pn)
 		os.MkdirAll(filepath.Join(proj, "gen"), 0o755)
 		os.MkdirAll(filepath.Join(home, "sibling"), 0o755)
 		os.WriteFile(filepath.Join(home, "canary.txt"), []byte("c"), 0o644)
@@ -378,6 +381,9 @@ func cleanSymlinkCases(spok, tmp string, r *rand.Rand, n int, st *cleanStats, bo
 		os.WriteFile(filepath.Join(proj, "keep.txt"), []byte("k"), 0o644)
 		os.WriteFile(filepath.Join(proj, "gen", "a.c"), []byte("a"), 0o644)
 		os.WriteFile(filepath.Join(proj, "notes.md"), []byte("n"), 0o644)
+		if k%3 == 0 { // a named pipe is an entry like any other: a glob output that matches it denotes it
+			syscall.Mkfifo(filepath.Join(proj, "gen", "ctl.pipe"), 0o644)
+		}
 		// links: relative path in the project -> target
 		links := [][2]string{{"gen/latest.c", "../keep.txt"}, {"gen/ext.c", "../../sibling/s.txt"}, {"out.txt", "keep.txt"}, {"bin", "../sibling"}, {"gen/dangling.c", "nowhere"}, {"latest", "build-42"}, {"current.lnk", "gone/for/good"}}
 		made := map[string]bool{}
@@ -389,7 +395,7 @@ func cleanSymlinkCases(spok, tmp string, r *rand.Rand, n int, st *cleanStats, bo
 			}
 		}
 		// "latest" and the variable CUR name links that may point at nothing: they are declared outputs all the same
-		outPool := []string{"gen/*.c", "out.txt", "bin", "*.txt", "gen/*", "*", "latest", "@CUR"}
+		outPool := []string{"gen/*.c", "out.txt", "bin", "*.txt", "gen/*", "*", "latest", "@CUR", ".."}
 		var outs []string
 		for _, o := range outPool {
 			if r.Intn(3) == 0 {
@@ -418,16 +424,16 @@ func cleanSymlinkCases(spok, tmp string, r *rand.Rand, n int, st *cleanStats, bo
 		cwd := proj
 		via := r.Intn(3) == 0
 		if via { // the project is reached through home/plink -> home/proj
-			os.Symlink("proj", filepath.Join(home, "plink"))
+			os.Symlink(pn, filepath.Join(home, "plink"))
 			cwd = filepath.Join(home, "plink")
 		}
 		before := snapshot(home)
 		// reference: top-level entries of the project matched by an output (lexically), except the spokfile; inside gen: by gen/ patterns
 		var want []string
 		for _, p := range before {
-			rel := strings.TrimPrefix(p, "proj/")
+			rel := strings.TrimPrefix(p, pn+"/")
 			gone := false
-			if strings.HasPrefix(p, "proj/") && rel != "spokfile" {
+			if strings.HasPrefix(p, pn+"/") && rel != "spokfile" {
 				for _, o := range outs {
 					for q := rel; q != "." && q != ""; q = filepath.Dir(q) { // an entry goes when it or a directory above it is an output
 						if ok, _ := doublestar.Match(o, q); ok && !strings.HasPrefix(q, ".") {
@@ -452,7 +458,7 @@ func cleanSymlinkCases(spok, tmp string, r *rand.Rand, n int, st *cleanStats, bo
 		}
 		after := snapshot(home)
 		st.SymlinkCases++
-		cs := fmt.Sprintf("symlinks:%v;via-link:%v;outs:%s", made, via, strings.Join(outs, ","))
+		cs := fmt.Sprintf("project-dir:%s;symlinks:%v;via-link:%v;outs:%s", pn, made, via, strings.Join(outs, ","))
 		cs = strings.ReplaceAll(cs, " ", "_")
 		if got, w := strings.Join(after, ","), strings.Join(want, ","); got != w || exit != 0 {
 			st.OracleFail["C12"]++
